@@ -14,6 +14,10 @@ def values_for(w, rng, quick):
     else:
         vs += [R - 1, 5]
     vs += [R - 1, rng.scalar()]
+    # k / 2, k / 4, k / 3 for small k: values whose doubles / multiples wrap modulo r into a small number
+    inv2 = (R + 1) // 2
+    k_ = 1 + 2 * rng.randrange(1 << min(max(w, 1), 200)) if w < 255 else 1
+    vs += [inv2, k_ * inv2 % R] + ([] if quick else [inv2 * inv2 % R, pow(3, R - 2, R)])
     if not quick:
         pad8 = ((w + 7) // 8) * 8
         vs += [(1 << min(pad8, 254)) % R, ((1 << min(pad8, 254)) + 1) % R, rng.scalar() % (1 << max(w, 1)), 0]
